@@ -254,6 +254,12 @@ def setup():
 
 
 def main(argv):
+    if argv and argv[0] == "--rebaseline":
+        # after a deliberate change of /repo (a fix: commit): the snapshot the reach obligation compares against
+        from . import cover
+        cover.write_baseline()
+        print("coverage/baseline.json rewritten from", cover.src_dir())
+        return 0
     if argv and argv[0] == "--setup":
         return setup()
     ap = argparse.ArgumentParser()
